@@ -563,8 +563,11 @@ func checkResponse(src string, jr *jResponse, textBytes []byte, s *msgx.Spec, oc
 	if d := diffMultiset(gc, wc); d != "" {
 		add("cookies", "response", "response cookies (name, value, path, domain, expires, httpOnly, secure) differ from the Set-Cookie headers: "+d)
 	}
-	if jr.RedirectURL != s.Location {
-		add("redirect-url", "response", fmt.Sprintf("redirectURL %q, Location header is %q", jr.RedirectURL, s.Location))
+	// every 3xx that carries a Location redirects there; for other statuses a
+	// Location header (201 Created, ...) is not a redirect: "" or the header accepted
+	redirects := s.Status/100 == 3 && s.Status != 304
+	if jr.RedirectURL != s.Location && (redirects || jr.RedirectURL != "") {
+		add("redirect-url", fmt.Sprintf("%dxx", s.Status/100), fmt.Sprintf("status %d: redirectURL %q, Location header is %q", s.Status, jr.RedirectURL, s.Location))
 	}
 	if jr.Content == nil {
 		add("content", "missing", "response has no content object")
